@@ -256,23 +256,19 @@ pub(crate) fn indent(val: &str, kwargs: Kwargs, _: &State) -> TeraResult<String>
     let mut res = String::with_capacity(val.len() * 2);
 
     let mut first_line = true;
-    for line in val.lines() {
+    // We keep the line terminators as they are: only the indentation is added
+    for line in val.split_inclusive('\n') {
+        let content = line.strip_suffix('\n').unwrap_or(line);
+        let content = content.strip_suffix('\r').unwrap_or(content);
         if first_line {
             if indent_first_line {
                 res.push_str(&indent);
             }
             first_line = false
-        } else {
-            res.push('\n');
-            if !line.is_empty() || indent_blank_line {
-                res.push_str(&indent);
-            }
+        } else if !content.is_empty() || indent_blank_line {
+            res.push_str(&indent);
         }
         res.push_str(line);
-    }
-
-    if val.ends_with('\n') {
-        res.push('\n');
     }
 
     Ok(res)
